@@ -209,11 +209,11 @@ CTOR_OF = {"from_ptr": "Ptr", "from_rc_ref_cell": "RcRefCell", "from_ptr_rw_lock
 _todyn_cache = {}
 
 
-def todyn_facts(features, rrtk_dep=None):
+def todyn_facts(features, rrtk_dep=None, no_std=False):
     """MIR facts of the downstream expansion witness (witness/todyn), built against /repo with the given features OF THE WITNESS CRATE;
     rrtk_dep optionally replaces the dependency line (to build against another feature set of rrtk itself)."""
     import os, shutil, tempfile, program
-    key = (tuple(features), rrtk_dep)
+    key = (tuple(features), rrtk_dep, no_std)
     if key not in _todyn_cache:
         work = tempfile.mkdtemp(prefix="todyn-", dir=program.tmp_root())
         dst = os.path.join(work, "todyn")
@@ -225,6 +225,11 @@ def todyn_facts(features, rrtk_dep=None):
             ct = open(os.path.join(dst, "Cargo.toml")).read()
             assert 'rrtk = { path = "/repo" }' in ct
             open(os.path.join(dst, "Cargo.toml"), "w").write(ct.replace('rrtk = { path = "/repo" }', rrtk_dep))
+        if no_std:
+            lp = os.path.join(dst, "src", "lib.rs")
+            lt = open(lp).read()
+            assert "#![allow(unused)]" in lt
+            open(lp, "w").write(lt.replace("#![allow(unused)]", "#![allow(unused)]\n#![no_std]", 1))
         program.point_at_repo(os.path.join(dst, "Cargo.toml"))
         res, p = program.run_driver(dst, (["--features", ",".join(features)] if features else []), crates=["rrtk_todyn_witness"])
         shutil.rmtree(work, ignore_errors=True)
@@ -251,7 +256,7 @@ def to_dyn_expansion(chk, prog, nostd_prog=None):
         chk.violation("floor", "C17.to_dyn-listed", "to_dyn! lists %s: expected at least Ptr, RcRefCell, PtrRwLock" % listed)
     tables = {}
     all_listed = listed
-    builds = [((), None, "caller-features=none"), (("alloc", "std"), None, "caller-features=alloc,std")]
+    builds = [((), None, "caller-features=none"), (("alloc", "std"), None, "caller-features=alloc,std"), ((), "NO_STD_CALLER", "caller-is-no_std")]
     if nostd_prog is not None:
         builds.append(((), NOSTD_DEP, "rrtk-without-std(alloc,libm)"))
         builds.append(((), NOFEAT_DEP, "rrtk-without-features"))
@@ -263,7 +268,10 @@ def to_dyn_expansion(chk, prog, nostd_prog=None):
             variants = variants_of(load_config("K5"), "ReferenceUnsafe")
         listed = [v for v in all_listed if v in variants]
         chk.obligation(key, "to_dyn! expansion in a downstream crate (%s): listed variants %s" % (tag, listed))
-        facts, err = todyn_facts(feats, dep)
+        if dep == "NO_STD_CALLER":
+            facts, err = todyn_facts(feats, None, no_std=True)     # a #![no_std] crate calling the std-enabled rrtk
+        else:
+            facts, err = todyn_facts(feats, dep)
         if facts is None:
             chk.violation("C17.D", key + ":build", "the downstream witness using to_dyn! does not compile (%s): %s" % (tag, err[-600:]))
             continue
